@@ -206,7 +206,7 @@ def one_run(ctx, corrs, stock_only=False, dense=False, rs=None, k=None):
         dl = [s for s in S["stocks"] if s["delisted"] is not None]
         others = [s for s in S["stocks"] if s["delisted"] is None]
         if dl and others:
-            S["trf"][dl[0]["id"]] = {"successor": others[0]["id"], "share_conversion_ratio": rnd.choice([0.5, 1.0, 2.0, 0.3276, 1.37])}
+            S["trf"][dl[0]["id"]] = {"successor": others[0]["id"], "share_conversion_ratio": rnd.choice([0.3276, 1.37, 0.77, 0.5])}
     cfgk = trading.gen_config(rnd, S, {"p_init_pos": 0.2})
     tr = trading.run_trading(rnd, S, cfgk)
     tr.run_seed, tr.run_index = rs, k
